@@ -8,6 +8,7 @@ Items are small ints in the spec; `item(i)` maps them to the objects the impleme
 `label(o)` maps back.  None is 99 in the spec.
 """
 import operator
+import os
 from collections import Counter
 
 from engine import tlc
@@ -472,3 +473,125 @@ def op_sig(op, n_old=None, argform=None):
         sig["argkind"] = op["kd"]
         sig["arg_has_dups"] = len(set(map(str, op["v"]))) != len(op["v"])
     return sig
+
+
+# ----------------------------------------------------------------------------- parallel replay with re-planning around failing edges
+_PG = None
+
+
+def _pworker(args):
+    wid, idxs, workdir = args
+    g, walks, mk = _PG
+    drv = mk(wid, os.path.join(workdir, "w%d" % wid))
+    out, steps = [], 0
+    for wi in idxs:
+        walk = walks[wi]
+        drv.reset(g.states[g.edges[walk[0]][0]])
+        for si, ei in enumerate(walk):
+            fk, act, tk = g.edges[ei]
+            steps += 1
+            try:
+                m = drv.step(g.states[fk], act, g.states[tk])
+            except Exception as e:
+                import traceback
+                m = ("driver", "driver exception: %r\n%s" % (e, traceback.format_exc()[-1200:]))
+            if m:
+                out.append((wi, si, m[0], m[1], (getattr(drv, "argform", None), getattr(drv, "legacy", None))))
+                break
+        else:
+            fin = getattr(drv, "finish", None)
+            if fin:
+                try:
+                    m = fin(g.states[g.edges[walk[-1]][2]])
+                except Exception as e:
+                    import traceback
+                    m = ("driver", "driver exception in drain: %r\n%s" % (e, traceback.format_exc()[-1200:]))
+                if m:
+                    out.append((wi, len(walk), m[0], m[1], (None, None)))
+    cl = getattr(drv, "close", None)
+    if cl:
+        cl()
+    return steps, out
+
+
+def parallel_replay(g, walks, make_driver, workdir, nproc=None):
+    """make_driver(worker_id, workdir) -> driver(reset, step -> None | (cls, text), finish, close). A walk ends at its first mismatch.
+    Returns (steps, [(walk index, step index (== len(walk) for the drain), cls, text, argform)])."""
+    import multiprocessing as mp
+    global _PG
+    if not walks:
+        return 0, []
+    nproc = max(1, min(nproc or tlc.NPROC, tlc.NPROC, len(walks)))
+    _PG = (g, walks, make_driver)
+    chunks = [list(range(i, len(walks), nproc)) for i in range(nproc)]
+    os.makedirs(workdir, exist_ok=True)
+    if nproc == 1:
+        res = [_pworker((0, chunks[0], workdir))]
+    else:
+        with mp.get_context("fork").Pool(nproc) as pool:
+            res = pool.map(_pworker, [(i, chunks[i], workdir) for i in range(nproc)])
+    return sum(r[0] for r in res), [m for r in res for m in r[1]]
+
+
+def subgraph_without(g, bad):
+    from engine import graph
+    h = graph.Graph()
+    h.states, h.inits = g.states, list(g.inits)
+    h.out = {k: [] for k in g.states}
+    h.index = []          # new edge index -> old edge index
+    for i, e in enumerate(g.edges):
+        if i in bad:
+            continue
+        h.out[e[0]].append(len(h.edges))
+        h.edges.append(e)
+        h.index.append(i)
+    return h
+
+
+def replay_every_edge(g, maxlen, rng, make_driver, workdir, n_random=0, rounds=3):
+    """Edge-covering tours replayed in parallel; edges that could not be executed because their walk ended at a failing edge are
+    re-planned on the graph without the failing edges (so one known defect cannot hide the edges behind it).
+    Returns (stats, mismatches[{edge, act, from, to, step, cls, mismatch, walk, argform}])."""
+    from engine import graph
+    executed, bad = set(), set()
+    mism_out, steps_total, walks_total = [], 0, 0
+    cur, back = g, None
+    plan0 = None
+    for rnd in range(rounds):
+        walks, plan = graph.plan_tours(cur, maxlen, rng)
+        if rnd == 0:
+            plan0 = plan
+            walks += graph.random_walks(cur, n_random, maxlen, rng)
+        else:
+            # keep only walks that bring something new
+            walks = [w for w in walks if any((back[ei] if back else ei) not in executed for ei in w)]
+        if not walks:
+            break
+        steps, mism = parallel_replay(cur, walks, make_driver, os.path.join(workdir, "r%d" % rnd))
+        steps_total += steps
+        walks_total += len(walks)
+        failed_at = {}
+        for wi, si, cls, text, argform in mism:
+            failed_at[wi] = si
+            w = walks[wi]
+            drain = si >= len(w)
+            ei = w[-1] if drain else w[si]
+            old = back[ei] if back else ei
+            fk, act, tk = cur.edges[ei]
+            if not drain:
+                bad.add(old)
+            mism_out.append({"edge": old, "act": act if not drain else {"op": {"n": "drain", "a": 0, "b": 0, "c": 0, "v": [], "kd": ""}},
+                             "from": cur.states[fk], "to": cur.states[tk], "step": si + 1, "cls": cls, "mismatch": text, "argform": argform[0],
+                             "legacy": argform[1], "walk": [cur.edges[x][1].get("op", cur.edges[x][1]) for x in w[:si + 1]]})
+        for wi, w in enumerate(walks):
+            upto = failed_at.get(wi, len(w))
+            for ei in w[:upto]:
+                executed.add(back[ei] if back else ei)
+        missing = set(range(len(g.edges))) - executed - bad
+        if not missing or not bad:
+            break
+        cur = subgraph_without(g, bad)
+        back = cur.index
+    stats = dict(plan0 or {}, walks=walks_total, steps=steps_total, edges_executed=len(executed), edges_failing=len(bad),
+                 edges_not_executed=len(set(range(len(g.edges))) - executed - bad))
+    return stats, mism_out
